@@ -450,7 +450,7 @@ def query_lines(rng, img, names, max_ops=40):
     for i, ty, link in secs:
         ops = []
         if ty in (SHT_REL, SHT_RELA):
-            ops += [f"rel {i}"]
+            ops += [f"rel {i}", f"swap {i} {rng.choice([0, 0, 1, 2])} {rng.choice([1, 2, 3, 4294967295])}"]
         if ty in (SHT_SYMTAB, SHT_DYNSYM):
             cand = [rng.choice(nm), rng.choice(nm), b"no_such_symbol", b""]
             ops += [f"symname {i} {hx(n)}" for n in rng.sample(cand, 3)]
@@ -474,7 +474,7 @@ def query_lines(rng, img, names, max_ops=40):
     if len(L) > max_ops:
         # keep arrange ops last (they modify), sample the rest
         L = rng.sample(L, max_ops)
-    L.sort(key=lambda l: l.startswith("arrange"))
+    L.sort(key=lambda l: l.startswith("arrange") or l.startswith("swap"))
     k = len(secs)
     L += [rng.choice([f"rel {k}", f"versym {k + 1}", f"symname 65535 {hx(b'x')}"])]
     return L
@@ -565,7 +565,7 @@ def oracle(case, out):
     return v
 
 
-TABLE_OPS = ("rel", "symname", "symvalue", "arr32", "arr64", "versym", "verneed", "verdef", "arrange")
+TABLE_OPS = ("rel", "symname", "symvalue", "arr32", "arr64", "versym", "verneed", "verdef", "arrange", "swap")
 
 
 def nontrivial(case, out):
